@@ -137,6 +137,21 @@ func csv(a []int) string {
 
 func jsonArray(a []int) string { return "[" + csv(a) + "]" }
 
+// unmergedDepth: histories up to this length are never merged with another
+// history, whatever the model state. The canonical key only contains what the
+// model knows; implementation state the model has no notion of (lazily
+// initialised sentinels, stale links of detached elements) is thereby still
+// explored for every short history, in particular for every order of the first
+// operations on a container that has never been touched.
+const unmergedDepth = 2
+
+func unmerged(hist []int) string {
+	if len(hist) == 0 || len(hist) > unmergedDepth {
+		return ""
+	}
+	return fmt.Sprint("#", hist)
+}
+
 // failure string of a finished transition: "<oracle>/<class>". Rejected
 // operations get their own oracle tags so that "the guard is missing" is one
 // signature whatever part of the structure it happens to corrupt first.
